@@ -127,7 +127,10 @@ func mitmCase(c *mon.Case, r *mon.Run, sf base.ServerFactory, b o4.Bridge, t tam
 			applied = true
 			return p[:at]
 		case "insert":
-			at := lo + t.bit%(hi-lo+1)
+			// (strictly before the end of the field: a byte inserted right behind
+			// MAC_S leaves the response itself intact and only damages the frame
+			// stream that follows, which is the seed-frame class)
+			at := lo + t.bit%(hi-lo)
 			applied = true
 			return append(append(append([]byte{}, p[:at]...), byte(seed)), p[at:]...)
 		case "delete":
